@@ -229,7 +229,8 @@ PROPS = {
     },
     "C18": {
         "fns": fns([F + "_check_string"], ANY) + fns(PATHS + [F + "_update_refs_file",
-                                                             F + "_is_string_in_refs_file"])
+                                                             F + "_is_string_in_refs_file",
+                                                             F + "_computehash"])
         + fns(PUBLIC_OBJ + PUBLIC_META + META_CORE + REFS_CORE, r"post/fs"),
         "extra": [r"path/.*", r"refs/line-is-wsfree"],
         "lemmas": ["frame/" + o for o in ("store_object", "tag_object", "delete_object",
@@ -332,6 +333,9 @@ def selects(prop, ob):
     spec = PROPS[prop]
     name = ob["name"]
     job = ob["job"]
+    if name.startswith("memo/"):
+        # a memoised function that reads mutable state: counts for every property whose cone runs it
+        return job[0] != "fn" or job[1] in {f for f, _ in spec.get("fns", [])}
     if job[0] == "fn":
         for fn, clause in spec.get("fns", []):
             if job[1] == fn:
